@@ -5,10 +5,10 @@ from . import base
 from ..arith import hist_of, warm, overwrite_in_place
 
 TRUSTED_BASE = base.TRUSTED_BASE + ['np.sum/cumsum/prod/cumprod/dot/trace/max/min/sort/clip/transpose/diagonal on integer arrays are modelled by list folds and re-indexing (Model/Reduce.lean)']
-ASSUMPTIONS = base.ASSUMPTIONS + ['results up to 53 bits (int64 accumulation exact); of np.matmul (dispatched to a kernel sized like dot since D66) only the values are demanded',
+ASSUMPTIONS = base.ASSUMPTIONS + ['results up to 53 bits (int64 accumulation exact); np.matmul / @ are sized like dot (D66)',
                                   'NumPy-route = method-route is a dispatch fact established by correspondence only']
 RULE = ('RD lines: (function, call route numpy/method, axis None/0/1, shape up to 3x3 or length 8, format n_word<=12, overflow config, codes) with elements all-min / all-max / mixed extremes / random; '
-        'RDD: dot of 1-D/2-D operands with mixed signedness; RDC: clip; RDM: np.matmul values. non-trivial = more than one element (always) and some element at an extreme of its format')
+        'RDD: dot of 1-D/2-D operands with mixed signedness; RDC: clip; RDM: np.matmul / @ of 2-D operands (format, codes, flags). non-trivial = more than one element (always) and some element at an extreme of its format')
 TECHNIQUE = 'Lean 4 theorems (sum of k in-range codes fits n_word+ceil(log2 k) bits, prefix sums too, product of k codes fits k*n_word bits, dot fits, values exact, max/sort/clip characterised) + differential correspondence + source tie: the growth/sizing/carrier rules of fxpmath/functions.py are translated to Lean on every run (harness/srcgen.py) and the tie theorems of lean/FxpVerif/Gen/Tie.lean re-checked against the translation'
 LEVEL_TEXT = ('Machine-checked for any list length and word length: the sum (and every prefix sum) of k in-range codes is in range of the (n_word + clog2 k)-bit format, the product of k codes in range of the k*n_word-bit format, '
               'a dot product of length k in range of the (clog2 k + n_x + n_y)-bit format, for every signedness mix, so the accumulating functions never overflow and their values are the exact sums/products of the element values; '
@@ -147,10 +147,8 @@ def exec_RDM(t):
     try:
         x = mkarr(a, r1, c1, sx, nx, fx)
         y = mkarr(b, r2, c2, sy, ny, fy)
-        z = np.matmul(x, y)
-        if not isinstance(z, Fxp):
-            return ['NOTFXP:' + type(z).__name__]
-        return [str(tuple(z.shape)).replace(' ', ''), tok_list([tok_exact(v) for v in flat(z.get_val())])]
+        z = np.matmul(x, y) if (a[0] + len(b)) % 2 else x @ y        # the function and the operator spelling
+        return observe(z)
     except Exception as e:
         return [exc_token(e)]
 
